@@ -250,9 +250,20 @@ def run(prop, tier, replay):
         if replay and json.load(open(replay)).get("kind") == "regconc":
             import fam_registry
             return fam_registry.replay(sc, replay)
+        if replay and json.load(open(replay)).get("kind") == "stopconc":
+            import fam_stopwait
+            return fam_stopwait.replay(sc, replay)
         binp = vlib.go_build(sc, "./cmd/actorscen", "actorscen")
         if replay:
             return do_replay(sc, binp, prop, replay)
+        if prop == "C07":
+            # engine-level histories (Actor.tla) and, at lock level, concurrent Stop / Poison callers (StopWait.tla)
+            import fam_stopwait
+            v = vlib.Verdict(prop, tier)
+            do_check(sc, binp, prop, tier, v)
+            if not v.violations:
+                fam_stopwait.conc_part(sc, v, tier)
+            return v.finish()
         if prop == "C10":
             # sequential histories (Actor.tla) and, at lock level, concurrent spawns (Registry.tla)
             import fam_registry
